@@ -389,7 +389,12 @@ func init() {
 		Level:       "model_checking",
 		Rule:        "all event sequences of the bound over {4 inserts (two keys, colliding periods, with/without the value a new field aggregates, two WHERE classes), Flush, Restart, ApplySchema(l) for 15 layouts: base [a SUM, av AVG, p50 PERCENTILE, mx MAX], rotations, every single deletion, every insertion position of a new AVG field, delete+insert, two WHERE variants} with at most 2 alters, started from the empty table and from three non-initial states (two keys on disk, two keys in memory, two keys on disk with the new field added); after every event on every distinct state: SELECT *, every single field and a reversed two-field subset must equal a model that tracks, per field, the points processed while it was continuously present (re-added fields unconstrained); non-trivial = sequence with an alter after at least one insert",
 		Assumptions: []string{"'processed before/after' is made exact by quiescing before each alter and waiting for the row store to take the field update", "PERCENTILE(…,50,0,10,0) over integer points is recomputed independently"},
-		Shards:      func(tier string) int { return 16 },
+		Shards: func(tier string) int {
+			if tier == "thorough" {
+				return 64 // short-lived workers: every closed zenodb instance leaves goroutines and buffers behind
+			}
+			return 16
+		},
 		Budget: func(tier string) time.Duration {
 			if tier == "thorough" {
 				return 45 * time.Minute
